@@ -6,7 +6,7 @@ projects what happened to monomorphic JSON events for TLC.
 A session is {"main": [prod..], "inc": [prod..], "good": [prod..], "api": ..,
 "handle": ..} with prod = {"k": kind, "d": defect class, "v": variant,
 "a": int}; "good" = productions appended to the valid text compiled
-afterwards on the same compiler object (session part F).
+afterwards on the same compiler object (session parts F and H).
 
   api     string   MOFCompiler.compile_string(text, ns)
           file     MOFCompiler.compile_file(path, ns)
@@ -86,6 +86,8 @@ class Rendered:
         self.good_classes = []    # classes the good text defines / pulls in
         self.good_inst = None     # class of the instance it creates
         self.other_full = False   # OTHER_NS must hold the prelude objects
+        self.undeclared = False   # part H: the good text names a class that
+        #                           has no valid declaration (not valid MOF)
 
 
 class Hang(BaseException):
@@ -459,12 +461,19 @@ class Renderer:
                 6: ' [EmbeddedInstance("Base")] uint8 e3;'}.get(a, "")
 
     def retry(self, p, tag, name):
-        """Valid production of the good text that depends on class `name`
-        (the class the session failed to declare; a valid declaration of it
-        is on the search path)."""
-        v, kw = p["v"], self.kw
+        """Production of the good text that depends on class `name` (the
+        class the session failed to declare).  `*_failed` (part F): a valid
+        declaration of it is on the search path; `*_undeclared` (part H):
+        there is none."""
+        v, kw = p["v"].replace("_undeclared", "_failed"), self.kw
         nm = {0: name, 1: name.lower(), 2: name.upper()}[p["a"]]
         user = "U%s" % tag
+        if v == "subinst_failed":
+            # a subclass and an instance of the subclass
+            return toks('%s %s : %s { string u; }; %s %s %s '
+                        '{ k = %d; s = "retry"; u = "x"; };' % (
+                            kw("class"), user, nm, kw("instance"), kw("of"),
+                            user, self.nextkey()))
         if v == "of_failed":
             self.out.good_inst = name
             return toks('%s %s %s { k = %d; s = "retry"; };' % (
@@ -859,8 +868,12 @@ class Renderer:
         if ses.get("good"):
             # part F: the class the main text failed to declare is available
             # in valid form on the search path; the good text depends on it
+            # part H: nothing on the search path, the later text names a
+            # class without a valid declaration
             name = self.prev[0] if self.prev else "Types"
-            if self.prev:
+            out.undeclared = any(p["v"].endswith("_undeclared")
+                                 for p in ses["good"])
+            if self.prev and not out.undeclared:
                 self.write_sp("%s.mof" % name,
                               "class %s : Base { string sp; };\n" % name)
                 out.good_classes.append(name)
@@ -1242,7 +1255,10 @@ def run_session(ses, seed, workdir, timeout=10.0, keep=False):
         exc2, secs2 = guarded(lambda: t.compile("string", gtext, None),
                               timeout)
         good = project(exc2, r)
-        refout, refdigest = reference(handle) if r.good_text is None \
+        # part H: the later text is not valid MOF, there is nothing to
+        # compare its result with
+        refout, refdigest = ("", "") if r.undeclared else \
+            reference(handle) if r.good_text is None \
             else reference_same_history(ses, r, timeout)
         glens = GOOD_LENS if r.good_text is None else \
             [{"fid": 0, "lens": [len(x) for x in gtext.split("\n")]}] + \
@@ -1251,7 +1267,7 @@ def run_session(ses, seed, workdir, timeout=10.0, keep=False):
             info["good_text"] = gtext
         good.update(call="good", texts=glens,
                     digest=t.dump_good(r.good_classes, r.good_inst)
-                    if exc2 is None else "",
+                    if exc2 is None and not r.undeclared else "",
                     refout=refout, refdigest=refdigest)
         return {"events": [setup, bad, good], "info": info}
     finally:
